@@ -27,7 +27,7 @@ def plan(tier, seed):
     for r, k in lv:
         specs.append({'part': 'level', 'r': r, 'k': k})
     for i in range(6 if tier == 'quick' else 24):
-        specs.append({'part': 'local', 'n': 450 if tier == 'quick' else 4200})
+        specs.append({'part': 'local', 'n': 600 if tier == 'quick' else 4200})
     return specs
 
 
@@ -169,7 +169,7 @@ def run_shard(spec, ctx):
         return
     rnd = ctx.rnd
     for n in range(spec['n']):
-        kind = ('polar', 'frame', 'antimeridian', 'uniform', 'pattern')[n % 5]
+        kind = ('polar', 'frame', 'antimeridian', 'uniform', 'pattern', 'edge', 'seam')[n % 7]
         r = rnd.randint(5, 29)
         try:
             if kind == 'pattern':
@@ -189,7 +189,7 @@ def finalize(m, tier):
     want = 16 if tier == 'quick' else 22
     if m['counters'].get('certificates', 0) != want:
         inc.append('only %d of %d level certificates completed' % (m['counters'].get('certificates', 0), want))
-    for k in ('local_polar_hi', 'local_frame_hi', 'local_antimeridian_hi', 'local_uniform_hi', 'local_pattern_hi'):
+    for k in ('local_polar_hi', 'local_frame_hi', 'local_antimeridian_hi', 'local_uniform_hi', 'local_pattern_hi', 'local_edge_hi', 'local_seam_hi'):
         if m['counters'].get(k, 0) < 50:
             inc.append('class %s below floor' % k)
     return {'inconclusive': inc, 'explanation': 'levels 0..%d are certified completely, deeper levels locally' % (5 if tier == 'quick' else 7)}
